@@ -529,19 +529,25 @@ ASSUMPTIONS = [
     "A6 warnings.warn does not raise",
 ]
 NOT_COVERED = {
-    "C13": ["incorporate_variants end-to-end",
-            "collections of more than two variants (induction over the composition lemma)",
-            "VCF records grouped by phase set (io/vcf/parser.py needs PyVCF and io.models: neither importable)"],
+    "C13": ["collections of more than two variants (induction over the composition lemma)",
+            "incorporate_variants on GeneInterval / collections (loops over the children: covered through the per-child "
+            "contracts only)",
+            "marshmallow field validation inside Schema().load (third-party; modelled as 'records its argument')"],
     "C18": ["GenBank features grouped by locus tag under permutation of records (io/genbank/parser.py does not import "
-            "here; Biopython feature objects)", "io/gff3/parser.py:filter_and_sort_qualifiers"],
+            "here; Biopython feature objects)"],
     "C01": ["CompoundInterval.relative_interval_to_parent_location / parent_to_relative_location / location_relative_to "
             "(block-list rebuild followed by constructor re-sort / optimize_blocks): proved for 1..3 blocks with symbolic "
             "coordinates, no contract for an arbitrary number of blocks",
             "overlapping-block layouts for the interval forms (bounded tier only)"],
     "C02": ["CompoundInterval.intersection / union / minus / has_overlap / contains / gap_list with compound operands: "
             "proved for fixed block counts (1..3 x 1..2) with symbolic coordinates, no contract for arbitrary block counts",
-            "CompoundInterval.extend_absolute / extend_relative / shift_position (bounded tier only)",
+            "CompoundInterval.extend_absolute / extend_relative (bounded tier only)",
             "random pairs over large genomes (replaced by the unbounded single-interval proofs)"],
+    "C03": ["Sequence.reverse_complement / append of located sequences symbolically (bounded tier only)"],
+    "C08": ["marshmallow schema load/dump through JSON (io/models.py not importable)"],
+    "C11": ["parse-back leg (io/gff3/parser.py: gffutils objects), FASTA section"],
+    "C12": ["not claimed"],
+    "C17": ["partial / pseudo flags and locus-tag stepping symbolically (bounded tier with an independent reader only)"],
 }
 
 
